@@ -57,12 +57,31 @@ def judge_a(t):
     # modules that made it through parse + symtab, with the mtime of the file they came from
     parsed = {}
     last_info = None
+    pending = []
     for c in t.calls:
         if c.site == 'src.getData':
             last_info = c.res[0] if c.ok else None
-        elif c.site == 'symtab.genCode' and c.ok and last_info is not None:
+            pending = []
+        elif c.site == 'symtab.genCode' and last_info is not None:
+            if c.ok:
+                pending.append((c.mib, (last_info, c.ctx)))
+            else:
+                pending, last_info = [], None      # the file is refused as a whole
+        if c.site != 'symtab.genCode' or not c.ok:
+            continue
+        # a module counts as parsed once its whole file went through (checked against attempts_of below)
+    taken_names = set()
+    for a_ in cs.attempts_of(t):
+        if a_['ok']:
+            for (m, _x, _y) in a_['mods']:
+                taken_names.add((m, a_['name']))
+    last_info = None
+    for c in t.calls:
+        if c.site == 'src.getData':
+            last_info = c.res[0] if c.ok else None
+        elif c.site == 'symtab.genCode' and c.ok and last_info is not None and (c.mib, c.ctx) in taken_names:
             parsed[c.mib] = (last_info, c.ctx)
-    requested_mods = set(c.mib for c in t.by('symtab.genCode') if c.ok and c.ctx in scn['requested'])
+    requested_mods = set(m for a_ in cs.attempts_of(t) if a_['ok'] and a_['name'] in scn['requested'] for (m, _x, _y) in a_['mods'])
     gen_calls = {}
     for c in t.by('codegen.genCode'):
         gen_calls.setdefault(c.mib, []).append(c)
